@@ -118,6 +118,10 @@ def attribute(res, meta):
         tg = []
         fn = None
         for s in d['spans']:
+            lab = (s.get('label') or '')
+            if lab.startswith('at the end of the function body') or lab.startswith('at this exit') or lab.startswith('at this loop exit') \
+                    or lab.startswith('at this continue') or lab.startswith('at this break') or (s['l1'] - s['l0']) > 12:
+                continue     # location of the failing path, not of the failing clause
             for ln in range(s['l0'], s['l1'] + 1):
                 for t in tags.get(ln, []):
                     if t not in tg:
